@@ -25,6 +25,9 @@ InvTyped         == LawTyped(cs.T, cs.src.x)
 InvIdempotent    == LawIdempotent(cs.T, cs.src.x)
 InvRoundTrip     == LawRoundTrip(cs.T, cs.src.x)
 InvTable         == LawTable(cs.T, cs.src.x)
+(* the canonical string of an item of type T is never one whose reading is left open: the
+   round-trip law is checked on strings the specification itself reads strictly *)
+InvCanonNotAmb   == cs.src.x.t = TagOf(cs.T) => ~Amb(cs.T, S(ToStr(cs.src.x)))
 (* every literal the generator writes denotes a well-formed item of its own type *)
 InvPoolTyped     == cs.src.x.t # "cx" => WellTyped(TypeOfTag(cs.src.x.t), cs.src.x)
 =============================================================================
